@@ -60,6 +60,10 @@ def effect_nodes(cfg, fi, derived: Set[str]) -> Dict[int, str]:
                     out[cn] = f"store <input>.{t.attr}"
         if isinstance(n, ast.Expr) and isinstance(n.value, ast.Call) and isinstance(n.value.func, ast.Attribute):
             f = n.value.func
+            if f.attr in ("null_grad", "clear_graph", "backward", "_in_place_op") and isinstance(f.value, ast.Name) and f.value.id in derived:
+                cn = cfg.node_for(n)
+                if cn is not None and cfg.reachable(cn):
+                    out[cn] = f"<input>.{f.attr}()"
             if f.attr in ("add", "append", "clear", "update", "discard", "remove") and isinstance(f.value, ast.Attribute) \
                     and f.value.attr in ("_ops", "_view_children") and isinstance(f.value.value, ast.Name) \
                     and f.value.value.id in derived:
@@ -75,7 +79,7 @@ def r13_1(run, label, sw):
     cfg = build_cfg(run, fi, assume, extra_raise=lambda c: op_instance_call(run, fi, c))
     derived = input_derived_names(fi.node, {"input_vars", "tensor_vars"})
     eff = effect_nodes(cfg, fi, derived)
-    if len(eff) < 4:
+    if len(eff) < 3:
         raise AnalysisError(f"{fi.short}: found only {len(eff)} writes of input-tensor state; expected the grad nulling, "
                             f"_ops.add and _view_children.append sites")
     raisers = [n for n in cfg.g.nodes if n not in (ENTRY, EXIT, RAISE)
